@@ -47,7 +47,118 @@ def eff_seed(seed):
 
 def plan(tier, seed):
     es = eff_seed(seed)
-    return [{'mode': 'walk', 'seed': es, 'i': i} for i in range(SIZES[tier])]
+    return [{'mode': 'walk', 'seed': es, 'i': i}
+            for i in range(SIZES[tier])] + \
+        [{'mode': 'pk', 'i': i} for i in range(len(pk_cases()))]
+
+
+# ---------------------------------------------------- declared primary keys
+
+PK_VARIANTS = [
+    ('code', {'kind': 'Integer', 'primary_key': True}),
+    ('code', {'kind': 'Integer', 'primary_key': True, 'db_column': 'pkcol'}),
+    ('code', {'kind': 'Char', 'max_length': 10, 'primary_key': True}),
+    ('code', {'kind': 'Char', 'max_length': 10, 'primary_key': True,
+              'db_column': 'pkcol'}),
+]
+# how the other models refer to the parent app1.A
+PK_REFERRERS = ['fk', 'fk_other_app', 'o2o', 'm2m', 'self_fk', 'fk_dbcol']
+# what happens after the start state (names resolved in _pk_case)
+PK_SEQUENCES = [
+    ['rebuild_child'],
+    ['rename_pk'],
+    ['rename_pk', 'rebuild_child'],
+    ['rename_pk', 'add_child_fk'],
+    ['rename_pk_dbcol', 'rebuild_child'],
+    ['rename_parent', 'rebuild_child'],
+    ['add_child_fk'],
+    ['rebuild_parent'],
+    ['rename_pk', 'rebuild_parent', 'rebuild_child'],
+]
+
+
+def pk_cases():
+    return [(v, r, q) for v in range(len(PK_VARIANTS))
+            for r in PK_REFERRERS for q in range(len(PK_SEQUENCES))]
+
+
+def _pk_case(i):
+    v, ref, q = pk_cases()[i]
+    pkname, pkdef = PK_VARIANTS[v]
+    pkdef = dict(pkdef)
+    char = pkdef['kind'] == 'Char'
+    val = (lambda n: 'k%d' % n) if char else (lambda n: 10 + n)
+    a_fields = [[pkname, pkdef], ['x', {'kind': 'Integer'}],
+                ['y', {'kind': 'Integer', 'null': True}]]
+    b_fields = [['x', {'kind': 'Integer'}],
+                ['y', {'kind': 'Integer', 'null': True}]]
+    child_app = 'app2' if ref == 'fk_other_app' else 'app1'
+    rel = {'fk': {'kind': 'ForeignKey', 'to': 'app1.A'},
+           'fk_other_app': {'kind': 'ForeignKey', 'to': 'app1.A'},
+           'fk_dbcol': {'kind': 'ForeignKey', 'to': 'app1.A',
+                        'db_column': 'parent_ref', 'null': True},
+           'o2o': {'kind': 'OneToOne', 'to': 'app1.A'},
+           'm2m': {'kind': 'ManyToMany', 'to': 'app1.A'},
+           'self_fk': None}[ref]
+    if ref == 'self_fk':
+        a_fields.append(['up', {'kind': 'ForeignKey', 'to': 'app1.A',
+                                'null': True}])
+        child_app, child, relname = 'app1', 'A', 'up'
+    else:
+        b_fields.insert(0, ['a', rel])
+        child, relname = 'B', 'a'
+    spec0 = {'app1': {'A': {'fields': a_fields}}, 'app2': {}}
+    if ref != 'self_fk':
+        spec0[child_app]['B'] = {'fields': b_fields}
+    pkcol = pkdef.get('db_column') or pkname
+    rows = {'app1_a': [dict({pkcol: val(1), 'x': 1, 'y': None}),
+                       dict({pkcol: val(2), 'x': 2, 'y': 5})]}
+    if ref == 'self_fk':
+        rows['app1_a'][1]['up_id'] = val(1)
+    elif ref == 'm2m':
+        rows['app1_b'] = [{'id': 1, 'x': 1, 'y': None}]
+        rows['app1_b_a'] = [{'id': 1, 'b_id': 1, 'a_id': val(2)}]
+    else:
+        col = rel.get('db_column') or 'a_id'
+        rows['%s_b' % child_app] = [{'id': 1, col: val(2), 'x': 1,
+                                     'y': None}]
+    edits = []
+    parent = 'A'
+    pk_now = pkname
+    for step in PK_SEQUENCES[q]:
+        if step == 'rebuild_child':
+            edits.append({'op': 'change_field', 'app': child_app,
+                          'model': child if child != 'A' else parent,
+                          'name': 'y', 'attrs': {'null': False},
+                          'initial': 3})
+        elif step == 'rebuild_parent':
+            edits.append({'op': 'delete_field', 'app': 'app1',
+                          'model': parent, 'name': 'x'})
+        elif step == 'rename_pk':
+            e = {'op': 'rename_field', 'app': 'app1', 'model': parent,
+                 'old': pk_now, 'new': 'key'}
+            if pkdef.get('db_column'):
+                e['db_column'] = pkdef['db_column']
+            edits.append(e)
+            pk_now = 'key'
+        elif step == 'rename_pk_dbcol':
+            edits.append({'op': 'rename_field', 'app': 'app1',
+                          'model': parent, 'old': pk_now, 'new': 'key',
+                          'db_column': 'newpk'})
+            pk_now = 'key'
+        elif step == 'rename_parent':
+            edits.append({'op': 'rename_model', 'app': 'app1', 'old': parent,
+                          'new': 'P', 'db_table': 'app1_p'})
+            parent = 'P'
+        elif step == 'add_child_fk':
+            edits.append({'op': 'add_field', 'app': child_app,
+                          'model': child if child != 'A' else parent,
+                          'name': 'extra',
+                          'fdef': {'kind': 'ForeignKey',
+                                   'to': 'app1.%s' % parent, 'null': True}})
+    return {'spec0': spec0, 'rows': rows, 'edits': edits, 'pk_case': {
+        'pk': PK_VARIANTS[v][1], 'referrer': ref,
+        'sequence': PK_SEQUENCES[q]}}
 
 
 def worker_setup():
@@ -57,6 +168,8 @@ def worker_setup():
 def build_case(desc):
     if desc.get('mode') == 'explicit':
         return desc['case']
+    if desc.get('mode') == 'pk':
+        return _pk_case(desc['i'])
     rng = seqcase.rng_for('C11', desc['seed'], desc['i'])
     gen = E.SpecGen(rng, apps=('app1', 'app2'), kinds=KINDS,
                     allow_meta=False, rows=True, max_models=3)
@@ -199,9 +312,14 @@ def run_case(desc):
                 elif tc not in got[tt]['columns']:
                     items.append({'type': 'FK_TARGET_COLUMN_MISSING',
                                   'table': t, 'fk': [col, tt, tc]})
-        for row in lab.fk_check():
-            items.append({'type': 'FK_CHECK_FAILED', 'table': row[0],
-                          'rowid': row[1], 'parent': row[2]})
+        try:
+            for row in lab.fk_check():
+                items.append({'type': 'FK_CHECK_FAILED', 'table': row[0],
+                              'rowid': row[1], 'parent': row[2]})
+        except Exception as e:
+            # SQLite refuses the check itself when a REFERENCES clause names
+            # a column that is not the parent's primary key / a unique column
+            items.append({'type': 'FK_CHECK_ERROR', 'msg': str(e)[:200]})
         _cls, fresh = siglab.fresh_snapshot(target, 'fresh')
         sitems = [it for it in dbsnap.diff_schema(dbsnap.strip_rows(got),
                                                   fresh)
